@@ -88,6 +88,12 @@ func renderList(args []absArg, l layout) string {
 	s := strings.Join(parts, l.comma)
 	if l.trailing && len(args) > 0 {
 		s += strings.TrimRight(l.comma, " ")
+		if l.comma == " , " {
+			s += " " // a blank (or, with parenOne, a line end) between the trailing comma and the closing parenthesis
+			if l.parenOne {
+				s += l.nl + l.indent
+			}
+		}
 	}
 	return s
 }
